@@ -5,6 +5,18 @@ import random
 
 import vlib
 
+META = {
+    "level": "model_checking",
+    "text": "NackGen.tla is model checked exhaustively at scaled constants (all histories of <= 6-8 actions, two streams); "
+            "TLC enumerates every boundary-alphabet behaviour at the real 2^16 modulus and the behaviours plus seeded random "
+            "histories are executed on the real receiveLog and GeneratorInterceptor; every recorded trace must be a behaviour "
+            "of the specification (each NACK set compared with the specification's set after every tick).",
+    "note": "Trusted: the reading of the property in NackGen.tla; tick stepping through the verif gate (real 200us ticker); "
+            "pion/rtcp NackPairs expansion. Schedules of concurrent readers vs. the loop are not enumerated here (C10).",
+    "technique": "TLA+ spec + TLC model checking, TLC-generated behaviours replayed into the Go code, recorded traces validated by TLC",
+    "design_ref": "DESIGN.md section 7 C03",
+}
+
 PKG = "pkg/nack"
 HARNESS = ["zz_verif_nackgen_test.go"]
 RULE = ("scripts = TLC-enumerated boundary-alphabet behaviours of Gen_NackGen at the real modulus (every sequence of L actions "
@@ -56,47 +68,10 @@ def random_script(rng, level, size, skip, mx, n):
     return {"level": level, "size": size, "skip": skip, "max": mx, "steps": steps}
 
 
-def execute(ctx, scripts, tag):
-    inp = ctx.path("c03-%s.in" % tag)
-    outp = ctx.path("c03-%s.trace" % tag)
-    vlib.write_ndjson(inp, scripts)
-    ov = vlib.overlay(ctx, vlib.harness_files(PKG, "nack", HARNESS))
-    rc, out = vlib.go_test(ctx, PKG, ov, "^TestVerifNackGenExec$", env={"VERIF_IN": inp, "VERIF_OUT": outp})
-    if "VERIF-INFRA" in out:
-        raise vlib.Infra("harness error:\n" + out[-2000:])
-    if rc != 0:
-        # the real code panicked or the harness failed while executing a script: bisect to one script
-        return None, out
-    return outp, out
-
-
-def script_of_factory(scripts_by_sig):
-    def f(trace_events):
-        return scripts_by_sig.get(json.dumps(trace_events[0], sort_keys=True) + str(len(trace_events)))
-    return f
-
-
 def run_batch(ctx, scripts, tag):
-    outp, out = execute(ctx, scripts, tag)
-    if outp is None:
-        vlib.report_violation(ctx, "executing scripts on the real code failed (panic or harness abort): " + out[-600:],
-                              {"kind": tag, "scripts": scripts[:50], "go_output": out[-3000:]})
-        return
-    events = vlib.read_ndjson(outp)
-    v = vlib.validate(ctx, "Trace_NackGen.tla", outp)
-
-    def script_of(tr):
-        # traces are in script order: find the index of this trace
-        idx = [i for i, (s, evs) in enumerate(vlib.split_traces(events)) if evs is tr or evs == tr]
-        return scripts[idx[0]] if idx else None
-    vlib.handle_validation(ctx, v, events, tag, script_of)
-    nontriv = set()
-    for _, evs in vlib.split_traces(events):
-        if any((e["a"] in ("tick", "missing")) and e["out"] for e in evs):
-            nontriv.add(json.dumps(evs, sort_keys=True))
-    ctx.cov["distinct_nontrivial"] += len(nontriv)
-    ctx.cov["evaluations"] += len(scripts)
-    vlib.add_samples(ctx, [vlib.split_traces(events)[len(scripts) // 2][1][:14]], 1)
+    return vlib.run_batch(ctx, tag=tag, scripts=scripts, pkg_rel=PKG, pkgname="nack", files=HARNESS,
+                          test="TestVerifNackGenExec", trace_module="Trace_NackGen.tla",
+                          nontrivial=lambda evs: any(e["a"] in ("tick", "missing") and e["out"] for e in evs))
 
 
 def gen_scripts(ctx, size, skip, mx, base, L):
@@ -154,9 +129,5 @@ def run(ctx):
 
 
 def replay(ctx, path):
-    rep = json.load(open(path))
-    scripts = [rep["script"]] if rep.get("script") else rep.get("scripts", [])
-    if not scripts:
-        raise vlib.Infra("replay file has no script")
-    run_batch(ctx, scripts, "replay")
+    run_batch(ctx, vlib.replay_scripts(path), "replay")
     return vlib.finish(ctx, "model_checking", RULE)
